@@ -5,6 +5,7 @@ import (
 	"fmt"
 	"os"
 	"sort"
+	"strings"
 	"testing"
 
 	"pgregory.net/rapid"
@@ -28,6 +29,9 @@ func TestC20Explore(t *testing.T) {
 		f := oracle(c, o)
 		if o.Excluded != "" {
 			excl[o.Excluded]++
+			if o.Excluded == "timeout_safety_net" && excl[o.Excluded] < 6 {
+				fmt.Println("TIMEOUT:\n" + o.Key[len(prelude):])
+			}
 			if o.Excluded == "HARNESS_parse_error" && excl[o.Excluded] < 6 {
 				fmt.Println("PARSE ERROR:\n" + o.Key[len(prelude):])
 			}
@@ -82,4 +86,69 @@ func TestC20Probe(t *testing.T) {
 	} else {
 		fmt.Println("held")
 	}
+}
+
+// TestC20Src runs the anko source in the file named by C20_SRC in the check's environment and prints the
+// outcome (development aid). Programs are separated by lines of "----".
+func TestC20Src(t *testing.T) {
+	fn := os.Getenv("C20_SRC")
+	if fn == "" {
+		t.Skip("development aid")
+	}
+	data, err := os.ReadFile(fn)
+	if err != nil {
+		t.Fatal(err)
+	}
+	for _, src := range strings.Split(string(data), "\n----\n") {
+		out := run(Case{}, src)
+		fmt.Printf("%s\n  => res=%s err=%v panic=%q parse=%v\n", strings.TrimSpace(src), out.res, out.err, out.panicV, out.parseErr)
+	}
+}
+
+// TestC20ExploreHeld is TestC20Explore for the held sub-check (C20_EXPLORE_HELD=<anything>).
+func TestC20ExploreHeld(t *testing.T) {
+	if os.Getenv("C20_EXPLORE_HELD") == "" {
+		t.Skip("development aid")
+	}
+	count := map[string]int{}
+	first := map[string]string{}
+	excl := map[string]int{}
+	outc := map[string]int{}
+	rapid.Check(t, func(rt *rapid.T) {
+		c := genHCase(rt)
+		o := &h.Obs{}
+		f := heldOracle(c, o)
+		if o.Excluded != "" {
+			excl[o.Excluded]++
+			if o.Excluded == "HARNESS_parse_error" && excl[o.Excluded] < 6 {
+				fmt.Println("PARSE ERROR:\n" + o.Key[len(prelude)+len(heldPrelude):])
+			}
+		}
+		for _, cl := range o.Classes {
+			if strings.HasPrefix(cl, "held:outcome") || strings.HasPrefix(cl, "held:error|") {
+				outc[cl]++
+			}
+		}
+		if f != nil {
+			count[f.Sig]++
+			if _, ok := first[f.Sig]; !ok {
+				first[f.Sig] = f.Msg
+			}
+		}
+	})
+	var sigs []string
+	for s := range count {
+		sigs = append(sigs, s)
+	}
+	sort.Strings(sigs)
+	for _, s := range sigs {
+		fmt.Printf("%5d %s\n", count[s], s)
+	}
+	if os.Getenv("C20_EXPLORE_MSG") != "" {
+		for _, s := range sigs {
+			fmt.Printf("=== %s\n%s\n", s, first[s])
+		}
+	}
+	fmt.Println("excluded:", excl)
+	fmt.Println("outcomes:", outc)
 }
